@@ -40,6 +40,10 @@ CHECKS['C14'] = dict(
    text="Deductive with the microversion symbolic: for every route x method the real decorator chain lets a request through exactly from the documented version and answers the documented 404/405 below it, the served overload is the one whose window holds the version, windows tile [first, 1.39]; the schema object selected, the keyword flags handed to the object layer, last-modified/cache-control, version-dependent response keys, 201 vs 200+body and the error `code` are proved to switch exactly at the documented version (feature table transcribed from rest_api_version_history.rst). Always-on bounded stand-in: 53 feature probes on the real stack around each introduction version (thorough: all 40 versions) plus version negotiation.",
    note="A-lib: microversion_parse (406, header parsing) trusted; gates inside the string-level query parsers and inside the candidate serialiser loops are covered by the probes only.",
    design="4/C14")
+CHECKS['C20'] = dict(
+   text="Deductive, unbounded in the lists: the real RequestWideSearchContext.limit_results is proved against the property's postcondition (count == min(N, M); every returned request is one of the inputs, pairwise distinct; without randomisation the result is the prefix of the input and random is never called; without an effective limit the result is a permutation; every provider named by a kept request keeps a summary; summaries come from the input) with three inductive loop invariants; AllocationCandidates._get_by_requests is proved against the callee contracts to apply limit_results to exactly EXCL(merged) -- the complete filtered candidate list -- so the limited answer is selected from the unlimited one. Always-on bounded stand-in: real stack, 4 topologies x 8 queries x limits 1..M+1 x randomisation off/on.",
+   note="A-lib: random.sample / random.shuffle by their documented behaviour; exclude_nested_providers and _merge_candidates are uninterpreted list functions here (their own behaviour belongs to C02/C03); 'identical request on unchanged state returns the identical list' additionally rests on the determinism of the SQL result order (A-order), which only the bounded stand-in exercises.",
+   design="4/C20")
 NA = {
  'C17': "quantifies over injected database faults and the retry behaviour of oslo.db/enginefacade; both would have to be assumed, at which point the contract restates the property (DESIGN section 5)",
 }
